@@ -541,11 +541,22 @@ class MetaClass(object):
 
         return link
             
+    @staticmethod
+    def _check_attribute_name(name):
+        '''
+        Names like __class__ and __dict__ are reserved by python and can't be
+        used to hold attribute values on instances.
+        '''
+        if name.startswith('__') and name.endswith('__'):
+            raise MetaException('%s is a reserved name and can not be used '
+                                'as an attribute name' % name)
+
     def append_attribute(self, name, type_name):
         '''
         Append an attribute with a given *name* and *type name* at the end of
         the list of attributes.
         '''
+        self._check_attribute_name(name)
         attr = (name, type_name)
         self.attributes.append(attr)
         
@@ -554,6 +565,7 @@ class MetaClass(object):
         Insert an attribute with a given *name* and *type name* at some *index*
         in the list of attributes.
         '''
+        self._check_attribute_name(name)
         attr = (name, type_name)
         self.attributes.insert(index, attr)
         
